@@ -5,6 +5,7 @@ import (
 	"fmt"
 	"net/url"
 	"sort"
+	"strconv"
 	"strings"
 	"testing"
 
@@ -105,6 +106,21 @@ func prop(t *rapid.T) {
 		nr.full = nr.p.String()
 		latest[nr.name] = nr
 		routes = append(routes, nr)
+		// an earlier route claims a name again through NamedTo - its own current name (which another route may have
+		// taken meanwhile) or a different one; from then on that name refers to it
+		if len(routes) >= 2 && rapid.IntRange(0, 3).Draw(t, "reclaim") == 0 {
+			old := routes[rapid.IntRange(0, len(routes)-2).Draw(t, "reclaimWho")]
+			name := old.route.Name()
+			if rapid.Bool().Draw(t, "reclaimOtherName") {
+				name = fmt.Sprintf("n%d", rapid.IntRange(0, 3).Draw(t, "reclaimName"))
+			}
+			if name != "" {
+				old.route.NamedTo(name, r)
+				old.name = name
+				latest[name] = old
+				ev.Class("name-reclaimed-by-NamedTo")
+			}
+		}
 	}
 	// GetRoute(name)
 	var names []string
@@ -163,11 +179,19 @@ func prop(t *rapid.T) {
 			style = 3
 		}
 		intVal := ""
+		// values may also be given as non-strings (they are stringified): decimal values are passed as int
+		asAny := func(v string) any {
+			if n, err := strconv.Atoi(v); err == nil && strconv.Itoa(n) == v && len(v) < 9 {
+				ev.Class("value:passed-as-int")
+				return n
+			}
+			return v
+		}
 		switch style {
 		case 0:
 			m := rux.M{}
 			for k, v := range vals {
-				m["{"+k+"}"] = v
+				m["{"+k+"}"] = asAny(v)
 			}
 			for k, v := range extras {
 				m[k] = v
@@ -176,7 +200,7 @@ func prop(t *rapid.T) {
 		case 1:
 			var kv []any
 			for _, v := range vars {
-				kv = append(kv, "{"+v.Name+"}", vals[v.Name])
+				kv = append(kv, "{"+v.Name+"}", asAny(vals[v.Name]))
 			}
 			for _, k := range extraKeys {
 				kv = append(kv, k, extras[k])
